@@ -47,6 +47,9 @@ def make_entry_env(I, fc):
     ex = fc.extracted
     a = ex.node.args
     env = {}
+    I.frames = [Frame(fc, env)]
+    for g, shape in fc.ghosts.items():
+        env[g] = I.fresh(shape, "ghost:" + g)
     names = [x.arg for x in a.posonlyargs + a.args]
     is_static = "staticmethod" in ex.decorators
     is_clsm = "classmethod" in ex.decorators
